@@ -825,6 +825,17 @@ def s3(rep, F):
                     rv = peel(n2.get("recv"))
                     if isinstance(rv, dict) and rv.get("k") == "local":
                         sinks.add(rv["id"])
+        # the collected list reaches the verdict and the output as collected: nothing is taken out of it or
+        # reordered on the way (the typed API and the wrapper report every finding, in evaluation order)
+        for n2 in walk(pv["body"]):
+            if n2.get("k") == "mcall" and n2.get("m") in REORDER + ("dedup_by_key", "dedup_by", "drain", "split_off"):
+                rv = peel(n2.get("recv"))
+                if isinstance(rv, dict) and rv.get("k") == "local" and rv.get("id") in sinks:
+                    rep.add(Finding("S3", pv["path"], "sink:%s" % n2["m"],
+                                    "the plugin applies %s() to the list of findings it collected: it reports "
+                                    "fewer / differently ordered findings than validate_network_rules(false), "
+                                    "SwiftMessage::validate and the wrapper for the same message" % n2["m"],
+                                    pv["file"], n2.get("ln")))
         ok = False
         for s2 in walk(pv["body"]):
             if s2.get("k") == "let" and s2.get("init") is not None:
